@@ -12,18 +12,35 @@ open TrashVerif PutCore Prog FS
 
 /-- Put, then restore to the original canonical location: every node of the entry is back at its
     path with identical bytes, link targets, modes and mtimes; payload and info file are gone from
-    the trash; every path other than the directories whose entry lists changed is as before. -/
-theorem restore_put_id (fs : FS) (infoC filesC src : CPath) (base content : Bytes) (st st' : PutSt)
+    the trash; every path other than the directories whose entry lists changed is as before.
+
+    Two hypotheses beyond the `Setting` are needed; without them the statement is FALSE:
+    * `hnotMount` — the (absent) payload path `files/N` is not an entry of the mount table.  Otherwise
+      the put still succeeds, but the restore's `rename` gets EBUSY and, for a directory, the copy
+      fallback of `shutil.move` fails in `rmtree` (`Proofs.C02.restore_put_id_counterexample_mount`).
+    * `hfreeBelow` — no node lies below the free payload name.  The flat `FS` allows orphan nodes
+      (parent absent); such a node is overwritten by the put's `rename` and is not back after the
+      restore (`Proofs.C02.restore_put_id_counterexample_orphan`).  In a tree-shaped file system it
+      follows from `Trashed.wasFreePayload` (`Proofs.C02.free_below_of_tree`). -/
+theorem restore_put_id_partial (fs : FS) (infoC filesC src : CPath) (base content : Bytes) (st st' : PutSt)
     (h : Setting fs infoC filesC src) (name : Bytes) (s1 : RunState)
     (hr : run noFaults (putCore infoC filesC base content (fun _ => .ok src) st) { fs := fs } = ((.ok name, st'), s1))
     (hpar : fs.isDirAt (FS.parent src) = true)
-    (hlen : ∀ n, src.getLast? = some n → n.length ≤ 255) :
+    (hlen : ∀ n, src.getLast? = some n → n.length ≤ 255)
+    (hnotMount : fs.isMount (filesC ++ [stemOf name]) = false)
+    (hfreeBelow : ∀ rel, fs.get (filesC ++ [stemOf name] ++ rel) = none) :
     let r := run noFaults (restoreCore (.ok (filesC ++ [stemOf name])) (.ok src) (.ok (infoC ++ [name]))) { fs := s1.fs }
     r.1 = .ok () ∧
     (∀ rel, r.2.fs.get (src ++ rel) = fs.get (src ++ rel)) ∧
     r.2.fs.get (filesC ++ [stemOf name]) = none ∧ r.2.fs.get (infoC ++ [name]) = none ∧
     (∀ q, ¬ FS.under src q = true → q ≠ FS.parent src → q ≠ filesC → q ≠ infoC → r.2.fs.get q = fs.get q) :=
-  Proofs.C02.restore_put_id fs infoC filesC src base content st st' h name s1 hr hpar hlen
+  Proofs.C02.restore_put_id_partial fs infoC filesC src base content st st' h name s1 hr hpar hlen hnotMount hfreeBelow
+
+/-- `hfreeBelow` of `restore_put_id_partial` holds in every tree-shaped file system (each node's
+    parent exists) once the payload name itself is free — which a successful put guarantees. -/
+theorem free_below_of_tree (fs : FS) (htree : ∀ q x, (fs.get (q ++ [x])).isSome = true → (fs.get q).isSome = true)
+    (p : CPath) (hp : fs.get p = none) : ∀ rel, fs.get (p ++ rel) = none :=
+  Proofs.C02.free_below_of_tree htree hp
 
 /-- The location recorded by put and read back by restore is in scope of its own directory, of
     every ancestor directory, of "/" and of itself as a path argument. -/
